@@ -105,7 +105,7 @@ Proof.
   - destruct (step (hc c) (ino s) (OCreate p t ex ok)) as [r i1].
     destruct r; try reflexivity. destruct (no_open c); reflexivity.
   - destruct (if no_opendir c then open_inode_ok s i else handle_get s h i); [|reflexivity].
-    destruct host as [b|]; [|reflexivity].
+    destruct host as [b|]; [|reflexivity]. destruct (valid (ino s) i); [|reflexivity].
     destruct (readdir_entries (hc c) plus (ino s) ents). reflexivity.
   - destruct (huse_cases c s kind i h) as (r & s' & E & [->|[e ->]] & [->|[m ->]]); cbn [hstep] in E; rewrite E; reflexivity.
   - cbn. unfold h_import. cbn. destruct (eff_fh (hc c) root); reflexivity.
@@ -138,7 +138,7 @@ Proof.
     destruct (no_open c); cbn; intros [X|[j X]]; try discriminate.
     inversion X; subst. rewrite wrap_h_small by lia. auto using fresh_handle_absent.
   - destruct (if no_opendir c then open_inode_ok s i else handle_get s h0 i); [|cbn; intros [X|[j X]]; discriminate].
-    destruct host as [b|]; [|cbn; intros [X|[j X]]; discriminate].
+    destruct host as [b|]; [|cbn; intros [X|[j X]]; discriminate]. destruct (valid (ino s) i); [|cbn; intros [X|[j X]]; discriminate].
     destruct (readdir_entries (hc c) plus (ino s) ents). cbn; intros [X|[j X]]; discriminate.
   - destruct (huse_cases c s kind i h0) as (r & s' & E & [->|[e ->]] & _); cbn [hstep] in E; rewrite E; cbn; intros [X|[j X]]; discriminate.
   - cbn. intros [X|[j X]]; discriminate.
@@ -218,10 +218,11 @@ Proof.
                   (no_opendir c = false /\ ck = mset N.eqb (mdel N.eqb (cookies s) h) h 0)).
     { unfold ck. destruct (no_opendir c); [auto|]. destruct host as [[|]|]; auto. }
     specialize (CK ck CKS).
-    destruct host as [b|].
+    destruct host as [b|]; [destruct (valid (ino s) i)|].
     + destruct (readdir_entries (hc c) plus (ino s) ents) as [l i1]. cbn [snd].
       destruct (inv_with_ino s i1 I) as (B1 & _).
       unfold HInv, Bal, HBound, HNoDup, CookieSub, fds_owned, hget, with_ino in *. cbn in *. repeat split; auto.
+    + cbn [snd]. unfold HInv, Bal, HBound, HNoDup, CookieSub, fds_owned, hget in *. cbn. repeat split; auto.
     + cbn [snd]. unfold HInv, Bal, HBound, HNoDup, CookieSub, fds_owned, hget in *. cbn. repeat split; auto.
   - destruct (huse_cases c s kind i h) as (r & s' & E & _ & [->|[m ->]]); cbn [hstep] in E; rewrite E; exact I.
   - cbn [snd].
@@ -241,7 +242,7 @@ Proof.
   - destruct (step (hc c) (ino s) (OCreate p t ex ok)) as [r i1].
     destruct r; try reflexivity. destruct (no_open c); reflexivity.
   - destruct (if no_opendir c then open_inode_ok s i else handle_get s h i); [|reflexivity].
-    destruct host as [b|]; [|reflexivity]. destruct (readdir_entries (hc c) plus (ino s) ents). reflexivity.
+    destruct host as [b|]; [|reflexivity]. destruct (valid (ino s) i); [|reflexivity]. destruct (readdir_entries (hc c) plus (ino s) ents). reflexivity.
   - destruct (huse_cases c s kind i h) as (r & s' & E & _ & [->|[m ->]]); cbn [hstep] in E; rewrite E; reflexivity.
   - cbn [snd]. match goal with |- leaked (h_import c ?s0 root) = _ => destruct (h_import_inv c s0 root) as (_ & L & _) end;
       cbn; auto. unfold Bal, fds_owned in B. lia.
@@ -264,7 +265,7 @@ Proof.
   - destruct (step (hc c) (ino s) (OCreate p t ex ok)) as [r i1].
     destruct r; cbn; try lia. destruct (no_open c); cbn; [lia|]. rewrite wrap_h_small by lia. lia.
   - destruct (if no_opendir c then open_inode_ok s i else handle_get s h i); [|cbn; lia].
-    destruct host as [b|]; [|cbn; lia]. destruct (readdir_entries (hc c) plus (ino s) ents). cbn. lia.
+    destruct host as [b|]; [|cbn; lia]. destruct (valid (ino s) i); [|cbn; lia]. destruct (readdir_entries (hc c) plus (ino s) ents). cbn. lia.
   - destruct (huse_cases c s kind i h) as (r & s' & E & _ & [->|[m ->]]); cbn [hstep] in E; rewrite E; cbn; lia.
   - cbn [snd]. unfold h_import. cbn. destruct (eff_fh (hc c) root); cbn; lia.
 Qed.
@@ -396,7 +397,7 @@ Proof.
     destruct (step (hc c) (ino s) (OCreate p t ex ok)) as [r i1]. destruct r; try reflexivity.
     destruct (no_open c); reflexivity.
   - destruct (if no_opendir c then open_inode_ok s i else handle_get s h i); [|left; reflexivity].
-    destruct host as [b|]; [|left; reflexivity].
+    destruct host as [b|]; [|left; reflexivity]. destruct (valid (ino s) i); [|left; reflexivity].
     right. exists (OReaddir plus ents). split; [reflexivity|]. cbn [step].
     destruct (readdir_entries (hc c) plus (ino s) ents). reflexivity.
   - left. destruct (huse_cases c s kind i h) as (r & s' & E & _ & [->|[m ->]]); cbn [hstep] in E; rewrite E; reflexivity.
@@ -422,7 +423,7 @@ Proof.
   - destruct (if dir then no_opendir c else no_open c); [exact M|]. destruct (handle_get s h i); exact M.
   - destruct (step (hc c) (ino s) (OCreate p t ex ok)) as [r i1]. destruct r; try exact M. destruct (no_open c); exact M.
   - destruct (if no_opendir c then open_inode_ok s i else handle_get s h i); [|exact M].
-    destruct host as [b|]; [|exact M]. destruct (readdir_entries (hc c) plus (ino s) ents). exact M.
+    destruct host as [b|]; [|exact M]. destruct (valid (ino s) i); [|exact M]. destruct (readdir_entries (hc c) plus (ino s) ents). exact M.
   - destruct (huse_cases c s kind i h) as (r & s' & E & _ & [->|[m ->]]); cbn [hstep] in E; rewrite E; exact M.
   - cbn [snd]. unfold hop_wf, ino_op, op_wf, wf_t, okfh in W. unfold h_import. cbn.
     destruct (eff_fh (hc c) root); cbn in *; destruct (ifh (hc c)); cbn in *; congruence.
